@@ -18,7 +18,6 @@ package fastgo
 
 import (
 	"strconv"
-	"strings"
 
 	"github.com/cloudwego/thriftgo/generator/golang"
 	"github.com/cloudwego/thriftgo/parser"
@@ -311,7 +310,7 @@ func genFastReadList(w *codewriter, rwctx *golang.ReadWriteContext, varname stri
 
 	w.f("%s = make(%s, %s)", varname, rwctx.TypeName.Deref(), tmpsize)
 	w.f("for %s := 0; %s < %s; %s++ {", tmpi, tmpi, tmpsize, tmpi)
-	if elemByValue(rwctx) {
+	if elemByValue(w, rwctx) {
 		// value_type_in_container: the element is the struct itself
 		elem := varname + "[" + tmpi + "]"
 		w.f("%s.InitDefault()", elem)
@@ -326,11 +325,8 @@ func genFastReadList(w *codewriter, rwctx *golang.ReadWriteContext, varname stri
 
 // elemByValue reports whether the container stores its struct-like elements
 // (list/set elements, map values) by value, as value_type_in_container asks.
-func elemByValue(rwctx *golang.ReadWriteContext) bool {
-	if !rwctx.ValCtx.Type.Category.IsStructLike() {
-		return false
-	}
-	return !strings.HasSuffix(string(rwctx.TypeName), "*"+string(rwctx.ValCtx.TypeName.Deref()))
+func elemByValue(w *codewriter, rwctx *golang.ReadWriteContext) bool {
+	return w.elemByValue && rwctx.ValCtx.Type.Category.IsStructLike()
 }
 
 func genFastReadMap(w *codewriter, rwctx *golang.ReadWriteContext, varname string, depth int) {
@@ -380,7 +376,7 @@ func genFastReadMap(w *codewriter, rwctx *golang.ReadWriteContext, varname strin
 		genFastReadAny(w, rwctx.KeyCtx, tmpk, depth+1)
 	}
 	genFastReadAny(w, rwctx.ValCtx, tmpv, depth+1)
-	if elemByValue(rwctx) {
+	if elemByValue(w, rwctx) {
 		w.f("%s[%s] = *%s", varname, tmpk, tmpv)
 	} else {
 		w.f("%s[%s] = %s", varname, tmpk, tmpv)
